@@ -22,9 +22,14 @@ HEADER = HEADER_GEN
 def header_doc():
     """used only when the translator refuses the source: the repaired code's tables, configuration records from running
     configuration() here, so that the deviation can still be turned into a concrete failing input"""
+    try:
+        build(("ctrl", [(0, 0)], False, ("plain", "z", (0, 1)))).as_qasm()
+        checked = "false"
+    except NotImplementedError:
+        checked = "true"
     return ("From Qib Require Import Backend.QobjCheck.\nLocal Open Scope Z_scope.\n"
-            "Definition bad := bad_cases_with doc_vt %s %s.\n"
-            % (t_cfg(ENV["procs"]["qsim"].configuration()), t_cfg(ENV["procs"]["qc"].configuration())))
+            "Definition bad := bad_cases_with (doc_vt_c %s) %s %s.\n"
+            % (checked, t_cfg(ENV["procs"]["qsim"].configuration()), t_cfg(ENV["procs"]["qc"].configuration())))
 
 PLAIN = {"id": "KId", "x": "KX", "y": "KY", "z": "KZ", "h": "KH", "sx": "KSx", "s": "KS", "sdg": "KSdg", "t": "KT",
          "tdg": "KTdg"}
@@ -1011,15 +1016,15 @@ def replay(ctx, data):
         o = inp["options"]
         verdict, nreq, exp, rec = submit(inp["proc"], spec, o)
         oracle_submit(ctx, inp, inp["proc"], spec, o, verdict, nreq, exp, rec)
-        if exp is not None and sig.startswith("history:"):
-            history_qobj(ctx, inp, exp, rec.calls[0][1]["qobj"] if rec.calls else None, probe=not sig.endswith(":regression"))
-            for f in ctx.failing:
-                if f["sig"] == sig.replace(":regression", ""):
-                    f["sig"] = sig
         v = verdict if not verdict.startswith("OTHER") else "CMinEmpty"
         terms.append(("CSubmit %s %s %s %s %s" % (t_proc(inp["proc"]), zl(o["shots"]), t_circ(spec), v, ct.nat(nreq)), inp))
         if exp is not None:
             terms.append(("CQobj %s %s (Some %s)" % (t_options(o), t_circ(spec), t_qobj(canon_qobj(exp.as_qasm(), o))), inp))
+        if exp is not None and sig.startswith("history:"):      # last: it may leave the experiment object modified
+            history_qobj(ctx, inp, exp, rec.calls[0][1]["qobj"] if rec.calls else None, probe=not sig.endswith(":regression"))
+            for f in ctx.failing:
+                if f["sig"] == sig.replace(":regression", ""):
+                    f["sig"] = sig
     elif kind == "as_qasm":
         ins = fix(inp["instruction"])
         g = build(ins)
